@@ -305,6 +305,28 @@ def r7_expanded_once(ctx):
         ctx.ob('C03.R7', 'expanded-once|%s' % (callee(et) or '').split('::')[-2], ok, b.loc(eb, et),
                'the expansion of %s inputs is guarded by a per-node-index membership test one of whose outcomes skips it: %s' % ((callee(et) or '').split('::')[-2], ok))
     ctx.floor('C03.R7', 'expansion sites', n, 5)
+    # the memory of the guard lasts as long as the graph is being built: the set is created before the fixed-point loop and never emptied
+    defs = Defs(b)
+    sets = set()
+    for gb, sb, edges in guards:
+        recv = op_place(b.term(gb)['args'][0])
+        if recv is None:
+            continue
+        sl, locs = backward_slice(b, recv['l'], defs, through_calls=False)
+        sets |= {l for l in locs if b.locals[l].startswith('std::collections::hash::set::HashSet<petgraph::graph_impl::NodeIndex') or
+                 b.locals[l].startswith('std::collections::HashSet<petgraph::graph_impl::NodeIndex')}
+    bad = []
+    for l in sorted(sets):
+        for xb, j, node in defs.full.get(l, []):
+            if xb in b.reachable(b.succ(xb)):
+                bad.append('%s is re-created inside a loop at %s' % (b.var_name(l) or '_%d' % l, b.loc(xb, node)))
+    for bb, t in b.calls():
+        if t['aty'] and 'HashSet<petgraph::graph_impl::NodeIndex' in t['aty'][0] and t['aty'][0].startswith('&mut') and \
+                (callee(t) or '').split('::')[-1] in ('clear', 'drain', 'retain', 'remove', 'take', 'replace', 'swap', 'extract_if'):
+            bad.append('%s at %s' % ((callee(t) or '').split('::')[-1], b.loc(bb, t)))
+    ctx.ob('C03.R7', 'guard-set-outlives-the-fixed-point', bool(sets) and not bad, b.loc(), 'the per-node guard set(s) (%d) are created once, outside every loop of '
+           'build_call_graph, and never emptied: %s%s' % (len(sets), bool(sets) and not bad, '' if not bad else ' — NO: ' + '; '.join(bad[:3]) +
+           ' (a later pass of the fixed point can then expand an already expanded node again: its transient inputs get a second node)'))
 
 
 def r8_finished_is_monotone(ctx):
